@@ -29,6 +29,18 @@ import BlocV.DrvC1617
 import BlocV.DrvC12
 -- END C12
 
+-- BEGIN C14
+import BlocV.DrvC14
+-- END C14
+
+-- BEGIN C15
+import BlocV.DrvC15
+-- END C15
+
+-- BEGIN C09
+import BlocV.DrvC09
+-- END C09
+
 open BlocV BlocV.Proto
 
 def specIRes : Spec.IRes → String
@@ -85,6 +97,15 @@ def handleTok (hex reader : String) : String :=
 -- END C13
 
 def handle (words : List String) : String :=
+  -- BEGIN C09
+  if let some r := DrvC09.handle words then r else
+  -- END C09
+  -- BEGIN C15
+  if let some r := DrvC15.handle words then r else
+  -- END C15
+  -- BEGIN C14
+  if let some r := DrvC14.handle words then r else
+  -- END C14
   -- BEGIN C12
   if let some r := DrvC12.handle words then r else
   -- END C12
